@@ -474,7 +474,7 @@ def run(tier, seed):
         acc.incon("strace unavailable: 'no file opened for writing' is judged from snapshots only")
     pinned = carrier_cases() + malformed_cases(tier) + later_dir_cases(tier)
     rng = clilib.Rng(seed)
-    seeded = seeded_cases(rng, 40 if tier == "quick" else 500)
+    seeded = seeded_cases(rng, 120 if tier == "quick" else 6000)
     cases = pinned + seeded
     acc.items_total = len(cases)
     acc.count("cases.pinned", len(pinned))
